@@ -124,17 +124,12 @@ pub fn check(plans: &[Plan], recs: &[RunRec]) -> Outcome {
             let begun_before = rec.events[..se]
                 .iter()
                 .any(|e| e.tid == g.tid.unwrap() && e.k == EvK::Begin);
-            let armed_before = rec.events[..se]
-                .iter()
-                .any(|e| e.tid == g.tid.unwrap() && e.k == EvK::FlagStore(true));
             let info_before = g.infos.iter().filter(|i| i.ev < se).count();
             let best_before = g.bestmoves.first().is_some_and(|b| b.ev < se);
             let phase = if best_before {
                 "after_bestmove_before_thread_end"
             } else if !begun_before {
                 "before_thread_begin"
-            } else if !armed_before {
-                "before_first_flag_store"
             } else if info_before == 0 {
                 "during_iteration_1"
             } else {
